@@ -122,8 +122,21 @@ func init() {
 	}
 	stdModels["context.WithCancel"] = withCancel(false)
 	// a deadline may pass at any scheduling point
-	stdModels["context.WithTimeout"] = withCancel(true)
-	stdModels["context.WithDeadline"] = withCancel(true)
+	stdModels["context.WithTimeout"] = func(ex *Exec, c *frame, fn *ssa.Function, a []Value) Value {
+		res := withCancel(true)(ex, c, fn, a).(Tuple)
+		if d, ok := a[1].(int64); ok {
+			res[0].(Iface).V.(*Opaque).Fields["deadline"] = ex.scheduler().now + d
+		}
+		return res
+	}
+	stdModels["context.WithDeadline"] = func(ex *Exec, c *frame, fn *ssa.Function, a []Value) Value {
+		res := withCancel(true)(ex, c, fn, a).(Tuple)
+		res[0].(Iface).V.(*Opaque).Fields["deadline"] = timeNS(a[1])
+		return res
+	}
+	stdModels["time.Until"] = func(ex *Exec, c *frame, fn *ssa.Function, a []Value) Value {
+		return timeNS(a[0]) - ex.scheduler().now
+	}
 	stdModels["context.WithValue"] = func(ex *Exec, c *frame, fn *ssa.Function, a []Value) Value {
 		return a[0]
 	}
@@ -147,6 +160,14 @@ func init() {
 	}
 	opaqueMethods["context.Value"] = func(ex *Exec, caller *frame, op *Opaque, args []Value) Value { return Iface{} }
 	opaqueMethods["context.Deadline"] = func(ex *Exec, caller *frame, op *Opaque, args []Value) Value {
+		// the nearest deadline up the chain of contexts
+		for o := op; o != nil; {
+			if d, ok := o.Fields["deadline"].(int64); ok {
+				return Tuple{ex.mkTime(d), true}
+			}
+			p, _ := o.Fields["parent"].(*Opaque)
+			o = p
+		}
 		return Tuple{ex.mkTime(0), false}
 	}
 
